@@ -75,7 +75,25 @@ class Contract(object):
 
 
 def function_obligations(contract, mode, size, label=None, extra_posts=None, values=None, want_paths=False):
-    """-> (list of Obl, stats dict). Raises Unsupported / Unbound (=> undecided)."""
+    """-> (list of Obl, stats dict). Raises Unsupported / Unbound (=> undecided).
+    Known findings (contract.known): entries are carve predicates over the context, or (carve, pinned) pairs. The main
+    run excludes every carved input class; for a pinned entry the class is verified separately against
+    'the recorded defective result OR the correct result', so any OTHER change of behaviour inside the class (and every
+    safety obligation) is still reported."""
+    known = list(getattr(contract, 'known', ()))
+    carves = [k[0] if isinstance(k, tuple) else k for k in known]
+    obls, stats = _run_contract(contract, mode, size, extra_posts, values, want_paths, exclude=carves, only=None, pinned=None)
+    for k in known:
+        if isinstance(k, tuple) and k[1] is not None:
+            o2, s2 = _run_contract(contract, mode, size, None, values, False, exclude=[], only=k[0], pinned=k[1])
+            for o in o2:
+                o.name = 'known-class.' + o.name
+            obls.extend(o2)
+            stats['known_class_paths'] = stats.get('known_class_paths', 0) + s2.get('paths', 0)
+    return obls, stats
+
+
+def _run_contract(contract, mode, size, extra_posts, values, want_paths, exclude, only, pinned):
     reset_fresh()
     mod = source.module(contract.rel)
     fdef = mod.func(contract.func, contract.cls)
@@ -83,8 +101,10 @@ def function_obligations(contract, mode, size, label=None, extra_posts=None, val
         st, pre, ctx = contract.setup(mode, size, values=values)
     else:
         st, pre, ctx = contract.setup(mode, size)
-    for kf in getattr(contract, 'known', ()):       # known-finding carve-outs: excluded input classes
+    for kf in exclude:
         pre = list(pre) + [bnot(kf(ctx))]
+    if only is not None:
+        pre = list(pre) + [only(ctx)]
     pre = [p for p in pre if p is not True]
     if any(p is False for p in pre):
         return [], dict(paths=0, vacuous=True)
@@ -121,7 +141,12 @@ def function_obligations(contract, mode, size, label=None, extra_posts=None, val
         ctx.pc_hyp = pc2.hyp()
         if mode == 'P':
             obls.append(Obl("return.canary", pc2.hyp(), z3.BoolVal(False), 'canary'))
-        for nm, f in contract.posts(st2, out[1], ctx):
+        posts = contract.posts(st2, out[1], ctx)
+        if pinned is not None:
+            allp = band(*[f for _, f in posts])
+            defect = pinned(ctx, st2, out[1])
+            posts = [('recorded-defect-or-correct', bor(defect, allp))]
+        for nm, f in posts:
             if f is True:
                 # still count it: a clause that folds to True on this path is discharged syntactically
                 f = z3.BoolVal(True)
